@@ -46,12 +46,17 @@ def run(cmd, cwd=None, timeout=None, mem_gb=None, stdout=None, stdin=None):
         if mem_gb:
             b = int(mem_gb * (1 << 30)); resource.setrlimit(resource.RLIMIT_AS, (b, b))
     t0 = time.time()
+    p = subprocess.Popen(cmd, cwd=cwd, stdout=stdout or subprocess.PIPE, stderr=subprocess.PIPE, preexec_fn=pre, stdin=stdin)
     try:
-        p = subprocess.run(cmd, cwd=cwd, timeout=timeout, stdout=stdout or subprocess.PIPE, stderr=subprocess.PIPE,
-                           preexec_fn=pre, stdin=stdin)
-        return p.returncode, (p.stdout or b'').decode(errors='replace') if stdout is None else '', p.stderr.decode(errors='replace'), time.time() - t0
-    except subprocess.TimeoutExpired as e:
-        return -9, (e.stdout or b'').decode(errors='replace') if e.stdout else '', 'TIMEOUT', time.time() - t0
+        so, se = p.communicate(timeout=timeout)
+        return p.returncode, (so or b'').decode(errors='replace') if stdout is None else '', (se or b'').decode(errors='replace'), time.time() - t0
+    except subprocess.TimeoutExpired:
+        # kill the whole process group (the command may be wrapped, e.g. /usr/bin/time cbmc ...): no orphan solver keeps running
+        try: os.killpg(p.pid, 9)
+        except Exception: pass
+        try: so, se = p.communicate(timeout=10)
+        except Exception: so, se = b'', b''
+        return -9, (so or b'').decode(errors='replace') if stdout is None else '', 'TIMEOUT', time.time() - t0
 
 
 class Ob:
@@ -176,20 +181,29 @@ def classify(desc):
 
 
 def extract_stream(trace):
+    """nondet input stream from a CBMC trace.  Every call of a vnd_* wrapper appears as a function-call step (also when the
+    formula was sliced); its value is the (non-hidden) assignment to `vnd_value` inside it - absent when slicing found the input
+    irrelevant for the property, in which case any value will do (0)."""
     vals = []
     for st in trace:
-        if st.get('stepType') != 'assignment' or st.get('hidden'): continue
-        lhs = st.get('lhs', '')
-        if lhs != 'vnd_value': continue
+        t = st.get('stepType')
+        if t == 'function-call':
+            fn = st.get('function', {}).get('identifier', '') or st.get('function', {}).get('displayName', '')
+            if fn in ('vnd_ulong', 'vnd_uint', 'vnd_uchar'): vals.append(0)
+            continue
+        if t != 'assignment' or st.get('hidden'): continue
+        if st.get('lhs', '') != 'vnd_value': continue
         fn = st.get('sourceLocation', {}).get('function', '')
         if not fn.startswith('vnd_'): continue
         v = st.get('value', {})
-        if 'binary' in v: vals.append(int(v['binary'], 2))
+        x = 0
+        if 'binary' in v: x = int(v['binary'], 2)
         elif 'data' in v:
-            try: vals.append(int(v['data']) & (2**64 - 1))
-            except ValueError: vals.append(0)
+            try: x = int(str(v['data']).rstrip('ul')) & (2**64 - 1)
+            except ValueError: x = 0
+        if vals: vals[-1] = x
+        else: vals.append(x)
     return vals
-
 
 
 def link_with_stubs(link, W, mode):
@@ -357,7 +371,7 @@ def decide(prop, ob, tier, seed, workroot, keep=False):
             for (pname, line, desc) in failed_asserts:
                 key = '%s:L%d' % (ob.name, line)
                 # counterexample trace for this property
-                cmd2 = cbmc_cmd(ob, W, gen, ['--property', pname, '--trace'], slice_formula=False)
+                cmd2 = cbmc_cmd(ob, W, gen, ['--property', pname, '--trace'], slice_formula=True)
                 o2 = os.path.join(W, 'trace_%s.json' % re.sub(r'\W', '_', pname))
                 with open(o2, 'wb') as fo:
                     rc2, _, se2, dt2 = run(cmd2, cwd=W, timeout=timeout * 2, mem_gb=mem, stdout=fo)
